@@ -19,43 +19,55 @@ class State:
         self.unnamed = ir.Value(const_value=_tensor("u"))
 
     def universe(self):
-        """Every graph / node / value reachable from anything the harness ever held."""
+        """Every graph / node / value reachable from anything the harness ever held.  An object whose public accessors raise
+        (a half-built node a rejected constructor left behind, say) is recorded in `self.broken` and not walked further."""
         graphs, nodes, values = [], [], []
         seen = set()
+        self.broken = {}
+        self.broken_objs = []
 
         def add(o):
             if o is None or id(o) in seen:
                 return
             seen.add(id(o))
-            if isinstance(o, ir.Graph):
-                graphs.append(o)
-                for n in o:
-                    add(n)
-                for v in list(o.inputs) + list(o.outputs) + list(o.initializers.values()):
-                    add(v)
-            elif isinstance(o, ir.Node):
-                nodes.append(o)
-                for v in o.inputs:
-                    add(v)
-                for v in o.outputs:
-                    add(v)
-                add(o.graph)
-                for a in o.attributes.values():
-                    if isinstance(a, ir.Attr) and a.type == ir.AttributeType.GRAPH:
-                        add(a.value)
-                    elif isinstance(a, ir.Attr) and a.type == ir.AttributeType.GRAPHS:
-                        for g in a.value:
-                            add(g)
-            elif isinstance(o, ir.Value):
-                values.append(o)
-                add(o.producer())
-                for u in o.uses():
-                    add(u.node)
-                add(o.graph)
+            try:
+                if isinstance(o, ir.Graph):
+                    kids = list(o) + list(o.inputs) + list(o.outputs) + list(o.initializers.values())
+                    graphs.append(o)
+                elif isinstance(o, ir.Node):
+                    kids = list(o.inputs) + list(o.outputs) + [o.graph]
+                    _ = (o.name, o.domain, o.op_type, o.overload, o.doc_string)
+                    for a in o.attributes.values():
+                        if isinstance(a, ir.Attr) and a.type == ir.AttributeType.GRAPH:
+                            kids.append(a.value)
+                        elif isinstance(a, ir.Attr) and a.type == ir.AttributeType.GRAPHS:
+                            kids.extend(a.value)
+                    nodes.append(o)
+                elif isinstance(o, ir.Value):
+                    kids = [o.producer()] + [u.node for u in o.uses()]
+                    values.append(o)
+                    try:
+                        kids.append(o.graph)
+                    except _ACCESSOR_ERRORS as e:
+                        # the value itself is sound enough to be listed; its owner cannot be computed
+                        self.broken[id(o)] = f"{type(o).__name__}.graph raised {type(e).__name__}"
+                        self.broken_objs.append(o)
+                        values.pop()
+                else:
+                    return
+            except _ACCESSOR_ERRORS as e:
+                self.broken[id(o)] = f"{type(o).__name__} accessor raised {type(e).__name__}"
+                self.broken_objs.append(o)
+                return
+            for k in kids:
+                add(k)
 
         for o in self.graphs + self.nodes + self.values + [self.unnamed]:
             add(o)
         return graphs, nodes, values
+
+
+_ACCESSOR_ERRORS = (AttributeError, TypeError, KeyError, IndexError, AssertionError, ValueError)
 
 
 def _as_int(i):
@@ -76,6 +88,8 @@ def invariant(st: State):
     """I(U): list of violated clauses (empty = consistent)."""
     graphs, nodes, values = st.universe()
     bad = []
+    for o in st.broken_objs:
+        bad.append(f"[broken-object] reachable object whose public accessors fail: {st.broken[id(o)]}")
     # (i) uses <-> inputs
     for v in values:
         uses = list(v.uses())
@@ -162,7 +176,7 @@ def snapshot(st: State):
     """S(U): every public accessor of every object, objects replaced by stable ids."""
     graphs, nodes, values = st.universe()
     order = {}
-    for o in st.graphs + st.nodes + st.values + [st.unnamed] + graphs + nodes + values:
+    for o in st.graphs + st.nodes + st.values + [st.unnamed] + graphs + nodes + values + st.broken_objs:
         order.setdefault(id(o), len(order))
 
     def oid(o):
@@ -175,6 +189,8 @@ def snapshot(st: State):
         return tensors.setdefault(id(t), len(tensors))
 
     snap = {}
+    for o in st.broken_objs:
+        snap[("broken", oid(o))] = st.broken[id(o)]
     for g in graphs:
         snap[("g", oid(g))] = (
             g.name, [oid(n) for n in g], [oid(v) for v in g.inputs], [oid(v) for v in g.outputs],
@@ -339,7 +355,7 @@ OPS = [
     "out.append", "out.extend2", "out.insert", "out.pop", "out.remove", "out.clear", "out.setitem", "out.setslice", "out.delitem", "out.iadd",
     "init.setitem", "init.pop", "init.delitem", "init.clear", "init.register", "init.update", "init.setdefault", "init.popitem", "init.add", "init.ior",
     "v.rename", "Node()", "Node(outputs=)", "conv.replace_all_uses_with", "g.remove_safe_many", "conv.rename_values2", "conv.rename_values3",
-    "in.setslice2", "out.setslice2", "in.extend3", "out.extend3", "init.update_keys",
+    "in.setslice2", "out.setslice2", "in.extend3", "out.extend3", "init.update_keys", "Node(outputs3=)",
 ]
 N_OPS = len(OPS)
 COLLECTION_OPS = [i for i, o in enumerate(OPS) if o.split(".")[0] in ("in", "out", "init")]
@@ -462,6 +478,10 @@ def apply(st: State, op: int, gi: int, a: int, b: int, c: int, d: int = 0):
             st.values.extend(n.outputs)
         elif name == "Node(outputs=)":
             n = ir.Node("", "NewO", [V(a)], outputs=[V(b)], graph=(g if c % 2 else None), name="newo")
+            st.nodes.append(n)
+        elif name == "Node(outputs3=)":
+            # several supplied outputs: the offending one (already produced / listed twice) may sit at any position
+            n = ir.Node("", "NewO3", [V(a)], outputs=[V(b), V(c), V(d)], graph=(g if c % 2 else None), name="newo3")
             st.nodes.append(n)
         else:
             raise AssertionError(name)
